@@ -291,6 +291,17 @@ func GenCase(r *lib.RNG, name, profile string) *Case {
 	for len(cutAt) < nf-1 {
 		cutAt[1+r.Intn(len(seq)-1)] = true
 	}
+	if nf > 1 && r.Chance(1, 4) {
+		cutAt[1] = true // a capture holding a single packet (see tie_at_capture_boundary below)
+		for len(cutAt) > nf-1 {
+			for k := range cutAt {
+				if k != 1 {
+					delete(cutAt, k)
+					break
+				}
+			}
+		}
+	}
 	longGap := profile == "c08" && nf > 1 && r.Chance(35, 100)
 	if longGap {
 		tags["gap_at_capture_boundary"] = true
@@ -299,30 +310,45 @@ func GenCase(r *lib.RNG, name, profile string) *Case {
 	for i := 0; i < nf; i++ {
 		names = append(names, fmt.Sprintf("c%d.pcap", i))
 	}
+	shuffledNames := false
 	if r.Chance(1, 2) && nf > 1 {
 		for i := len(names) - 1; i > 0; i-- {
 			j := r.Intn(i + 1)
 			names[i], names[j] = names[j], names[i]
 		}
 		tags["names_not_chronological"] = true
+		shuffledNames = true
 	}
 	t := int64(1_000_000 + r.Intn(1000))
 	fi := 0
 	c.Files = []File{{Name: names[0]}}
 	last := make([]int64, len(wires))
 	first := make([]bool, len(wires))
+	fileSameTs := true // all packets of the current capture carry the same timestamp so far
 	for i, g := range seq {
 		if i > 0 {
 			inc := int64(lib.Pick(r, []int{0, 0, 1, 10, 1000, 20_000, 60_000, 1_000_000}))
 			if cutAt[i] {
-				if inc == 0 {
+				// equal timestamps across a capture boundary: the builder orders by (timestamp, file name,
+				// index), so with chronological names the wire order is kept. Interesting when the
+				// previous capture starts (and here: consists only of packets) at that very timestamp.
+				tie := !shuffledNames && fileSameTs && r.Chance(1, 2)
+				if tie {
+					inc = 0
+					tags["tie_at_capture_boundary"] = true
+				}
+				if inc == 0 && !tie {
 					inc = 1
 				}
+				fileSameTs = true
 				if longGap {
 					inc = int64(r.Range(100, 290)) * 1_000_000
 				}
 				fi++
 				c.Files = append(c.Files, File{Name: names[fi]})
+			}
+			if inc != 0 && !cutAt[i] {
+				fileSameTs = false
 			}
 			t += inc
 		}
